@@ -201,6 +201,38 @@ def case_build(log, nfs):
 
     _r, pm = explore(run)
     log.path_stats(pm)
+    _validate(log, m, nfs)
+
+
+def _validate(log, m, nfs):
+    """translator validation: the shimmed build() on float cards == the untouched module on the same cards (non-alpha_s entries),
+    and regroup_evolgrid / generate_block shimmed == untouched"""
+    from eko import interpolation
+    from ekobox import cards
+
+    import eko.couplings as real_couplings
+
+    real = real_module("ekobox.info_file")
+    real_utils = real_module("ekobox.utils")
+    m.commons.Couplings = real_couplings.Couplings  # (the symbolic part of this case is over)
+    rng = log.rng
+    for _ in range(2):
+        th = cards.example.theory()
+        op = cards.example.operator()
+        op.mugrid = [(round(rng.uniform(2, 80), 3), nf) for nf in nfs]
+        op.xgrid = interpolation.XGrid([0.1, 0.5, 1.0])
+        CouplingsRec.made = []
+        ctx.reset()
+        b = real.build(th, op, 2, info_update={"XMin": 0.2})
+        m.commons.Couplings = CouplingsRec
+        a = m.info.build(th, op, 2, info_update={"XMin": 0.2})
+        m.commons.Couplings = real_couplings.Couplings
+        for k in ("QMin", "QMax", "XMin", "XMax", "NumFlavors", "NumMembers", "AlphaS_Qs", "Flavors"):
+            if a[k] != b[k]:
+                log.inconclusive.append("translator validation failed for info_file.build key %s: %r vs %r" % (k, a[k], b[k]))
+        if m.utils.regroup_evolgrid(op.mugrid) != real_utils.regroup_evolgrid(op.mugrid):
+            log.inconclusive.append("translator validation failed for regroup_evolgrid")
+        log.validate()
 
 
 def case_evolve(log, nfs, target, shuffle, members):
